@@ -13,7 +13,7 @@ PROP = "C16"
 SPEC = ["Bng.Spec.C16Teardown", "Bng.Spec.C16Pppoe", "Bng.Spec.C16SubMgr"]
 COMPS = [
     V.Component("pppoesrv", monitors=["residue", "conservation"]),
-    V.Component("teardown", monitors=["double-stop", "double-cleanup", "residue", "missing-stop", "stop-unstarted", "stop-before-end", "not-terminated"]),
+    V.Component("teardown", monitors=["double-stop", "double-cleanup", "residue", "missing-stop", "stop-unstarted", "stop-before-end", "not-terminated", "double-padt", "stop-without-start"]),
     V.Component("submgr", monitors=["double-release", "double-end", "residue", "index-mismatch"]),
 ]
 _extra = os.path.join(os.path.dirname(os.path.abspath(__file__)), "c16_dhcp.py")
@@ -33,7 +33,7 @@ ASSUME = [
     "RADIUS accounting is observed as the Stop records a real loopback accounting server accepts; the eBPF removal as the callback invocations",
     "concurrent terminations are modelled as sequential ones (SessionTeardown.cleanup runs under its mutex; the tornDown flag is set under the session lock)",
     "the idle-sweep leak of the PPPoE server is the recorded finding KF-pppoe-idle-leak",
-    "subscriber.Manager: two TerminateSession calls are interleaved at the manager's unlock points (tbegin/tresume); AssignAddress racing a termination in progress is not explored",
+    "subscriber.Manager: two TerminateSession calls are interleaved at the manager's unlock points (tbegin/tresume); AssignAddress on a session that already holds an address (incl. while its termination is parked) lies outside Bng.SubMgr.Valid: the two recorded findings KF-submgr-reassign-leak / KF-submgr-assign-race",
 ]
 
 
